@@ -176,11 +176,12 @@ class SumT:
     Only the operations needed by the verified code are supported: + - with anything,
     * / by sum-free scalars, conj.  Anything else raises Unsupported.
     """
-    __slots__ = ('terms', 'rest')
+    __slots__ = ('terms', 'rest', 'name')
 
     def __init__(self, terms, rest=0):
         self.terms = terms      # list of (coef, lo, hi, body)
         self.rest = rest
+        self.name = None        # the symbol given to this very sum object when it was used as a divisor
 
     def __repr__(self):
         return 'SumT(%d terms, rest=%r)' % (len(self.terms), self.rest)
@@ -269,8 +270,11 @@ NAMED_SUMS = {}
 def name_sum(s):
     """A finite sum used as a divisor is replaced by a fresh real symbol standing for its value (the
     defining equation is kept in NAMED_SUMS but not given to the solver: a sound weakening)."""
+    if s.name is not None:
+        return s.name           # the same sum object (e.g. captured by an element-wise closure) keeps one name
     v = z3.Real('sigma!%d' % (len(NAMED_SUMS) + 1))
     NAMED_SUMS[v.get_id()] = (v, s)
+    s.name = v
     return v
 
 
